@@ -17,7 +17,7 @@ import sys
 from vp import core, values as V
 
 DEFAULTS = [0, 1, None, "", "x", False]
-VALUES = [0, 1, 2, None, "", "x", "__none__", 1.5, "__DDS_NONE__"]
+VALUES = [0, 1, 2, None, "", "x", "__none__", 1.5, "__DDS_NONE__", True, 1.0, 0.0]
 PNAMES = ["a", "b", "c", "d"]
 NODEF = "<nodefault>"
 
